@@ -120,8 +120,16 @@ type Ent struct {
 	Desc    []TXT    `json:"desc"`
 	URL     []TXT    `json:"url"`
 	// al, NYCT: raw alert id text when it is not a pool token (elevator ids), Mercury alert data
-	RawID   string `json:"rawId,omitempty"`
-	Mercury O      `json:"mercury,omitempty"`
+	RawID   string        `json:"rawId,omitempty"`
+	Mercury O             `json:"mercury,omitempty"`
+	Elev    abs.Opt[Elev] `json:"elev,omitempty"`
+}
+
+// Elev is the structured form of an elevator alert id.
+type Elev struct {
+	St   int `json:"st"`
+	Plat int `json:"plat"`
+	El   int `json:"el"`
 }
 
 type Msg struct {
